@@ -41,6 +41,8 @@ NATIVE_WITNESSES = {"c03_empty_call": _native_empty_call}
 
 
 def make_world(ex, shape, real):
+    if shape.get("family") == "nested":
+        return World(ex, 3, nprio=3, real=real)
     return World(ex, shape["n"], nprio=len(shape["methods"]), real=real)
 
 
@@ -75,9 +77,95 @@ class Boom(Exception):
     pass
 
 
+NESTED_BODIES = {
+    # calls made from inside a method (recurse / call_next are rewritten into inlined lookups with temporaries): every argument object must
+    # arrive in its own position, also when one rewritten call is an argument of another
+    "outer_inner_last": "return recurse(A0, recurse(A1, y))",
+    "outer_inner_first": "return recurse(recurse(A1, y), A0)",
+    "siblings_one_line": "return (recurse(A0, y), recurse(A1, A0))",
+    "three_deep": "return recurse(A0, recurse(A1, recurse(A0, y)))",
+    "inner_both": "return recurse(recurse(A0, y), recurse(A1, y))",
+    "call_next_in_recurse": "return recurse(A0, call_next(x, A1))",
+}
+_NESTED_MS = {}
+
+
+def make_run_nested(W, shape):
+    """methods m0(x: K0, y), m1(x: K1, y), catch-all m2(x: object, y) (all log and return a fresh token), a driver on K2 whose body is one of
+    NESTED_BODIES.  Whatever the hierarchy selects, the i-th logged entry must have received exactly the objects the i-th executed call site
+    supplied (the expected sequence is computed from the body by ordinary evaluation order with plain callables)."""
+    from ovld import Ovld
+
+    body = NESTED_BODIES[shape["body"]]
+    ms = _NESTED_MS.get(shape["body"])
+    if ms is None:
+        tok = "TOK.append(object())\nreturn TOK[-1]"
+        ms = _NESTED_MS[shape["body"]] = MethodSet([
+            dict(pos=[("x", ("K", 0), False), ("y", ("obj",), False)], body=tok),
+            dict(pos=[("x", ("K", 1), False), ("y", ("obj",), False)], body=tok),
+            dict(pos=[("x", ("obj",), False), ("y", ("obj",), False)], body=tok),
+            dict(pos=[("x", ("K", 2), False), ("y", ("obj",), False)], body=body),
+        ])
+    code = compile("def ref(x, y, recurse, call_next, A0, A1):\n    " + body, "<c03-nested-ref>", "exec")
+
+    def run(ctx):
+        TOK = []
+        A0, A1 = W.K[shape["c0"]](), W.K[shape["c1"]]()
+        hs, LOG, ns = ms.instantiate(W, extra=dict(TOK=TOK, A0=A0, A1=A1))
+        ov = Ovld()
+        for m in range(4):
+            ov.register(hs[m], priority=0 if m < 3 else 1)      # (the driver outranks the others: K2() always reaches it)
+        x, y = W.K[2](), object()
+        out = None
+        try:
+            res = ov.dispatch(x, y)
+            out = "ret"
+        except TypeError as e:
+            msg = str(e)
+            out = "AMB" if msg.startswith("Ambiguous resolution") else "NOM" if msg.startswith("No method") else "TE:" + msg[:60]
+        except RecursionError:
+            out = "LOOP"
+        entries = [(m, posv) for (m, posv, kwv, sv) in LOG]
+        # expected argument objects per executed call site, in evaluation order: replay the body with plain callables that hand back the
+        # tokens the real run produced, in order
+        seq, toks = [], list(TOK)
+
+        def plain(*a):
+            seq.append(a)
+            return toks[len(seq) - 1] if len(seq) - 1 < len(toks) else object()
+
+        g = {}
+        exec(code, g)
+        try:
+            g["ref"](x, y, plain, plain, A0, A1)
+        except Exception:  # noqa: BLE001
+            pass
+        ok = True
+        inner = [e for e in entries if e[0] != 3]
+        if not entries or entries[0][0] != 3 or not (entries[0][1][0] is x and entries[0][1][1] is y):
+            ok = False
+        # a leaf that ran is a call site that completed (a site rejected by the dispatcher stops the body): compare in order
+        for (m, posv), exp in zip(inner, seq):
+            if len(posv) != len(exp) or not all(a is b for a, b in zip(posv, exp)):
+                ok = False
+        if out == "ret" and len(inner) != len(seq):
+            ok = False
+        if out.startswith("TE"):
+            ok = False
+        if out == "LOOP":
+            ok = True          # a forwarded object is an instance of the driver's class in this hierarchy: the driver legitimately re-enters itself
+        info = dict(body=body, A0=f"K{shape['c0']}()", A1=f"K{shape['c1']}()", outcome=out, entries=[m for m, _ in entries][:12],
+                    received_as_written=ok)
+        return Verdict(ok, (), info, [out[:3]], nontrivial=len(inner) >= 2 and out != "LOOP")
+
+    return run
+
+
 def make_run(W, shape, known_active=None):
     from ovld import Ovld
 
+    if shape.get("family") == "nested":
+        return make_run_nested(W, shape)
     if known_active is None:
         known_active = runner.active_known_ids(PID)
     n = shape["n"]
@@ -216,13 +304,16 @@ def gen_shapes(tier, seed):
         M = rng.choice((1, 2, 2, 3))
         uniform = rng.random() < 0.6
         selfarg = rng.random() < 0.3
-        kwpool = rng.choice((["k", "j"], ["k", "j"], ["k", "type"], ["method", "j"]))   # (names the generated entry point uses itself)
+        kwpool = rng.choice((["k", "j"], ["k", "j"], ["k", "type"], ["method", "j"], ["MISSING", "j"], ["k", "KWARGS"], ["OVLD", "TARGS"]))   # (names the generated entry point uses itself)
+        posnames = rng.choice((["x", "y", "z"],) * 6 + (["OVLD", "MISSING", "z"], ["TARGS", "type", "method"]))
+        if set(posnames) & set(kwpool):
+            kwpool = ["k", "j"]
         methods = []
         maxpos = 0
         for m in range(M):
             npos = rng.choice((0, 1, 1, 2, 2, 3 if tier != "quick" else 2))
             nreq = rng.randint(0, npos)
-            names = ["x", "y", "z"][:npos] if uniform else [f"{'abc'[m]}{q}" for q in range(npos)]
+            names = posnames[:npos] if uniform else [f"{'abc'[m]}{q}" for q in range(npos)]
             pos = [[names[q], rng.randrange(n + 1), q >= nreq] for q in range(npos)]
             posonly = npos if (npos and rng.random() < 0.25) else 0
             kw = []
@@ -246,7 +337,7 @@ def gen_shapes(tier, seed):
         allowed = uniform and not any(md["posonly"] for md in methods) and maxpos - minreq <= 1 and all(len(md["pos"]) == maxpos for md in methods)
         if uniform and maxpos:
             for nargs in range(0, maxpos):
-                names = ["x", "y", "z"][nargs:maxpos]
+                names = posnames[nargs:maxpos]
                 for k in range(1, len(names) + 1):
                     calls.append([nargs, [], names[:k], 0, bool(allowed)])
                 # with a gap: an earlier optional positional omitted, a later one given by keyword (never in the documented
@@ -260,7 +351,8 @@ def gen_shapes(tier, seed):
         for c in calls[::3]:
             c[3] = 1
         out.append(dict(n=n, methods=methods, calls=calls, uniform=uniform, selfarg=selfarg))
-    return out, N, True
+    nested = [dict(n=3, family="nested", body=b, c0=c0, c1=c1) for b in NESTED_BODIES for c0 in (0, 1) for c1 in (0, 1)]
+    return nested + out, N + len(nested), True
 
 
 def explore_shape(shape, tier="quick", seed=0, budget_s=30, validate=0):
@@ -282,6 +374,8 @@ def main(tier, seed):
         PID, tier, seed, t0, results,
         bounds=dict(classes=3, methods="1-3", positionals="0-2 (3 thorough), required/optional/positional-only, uniform or differing names",
                     keyword_only="two keyword names per set from {k, j, type, method}, required or optional", receivers="functions and methods with self",
+                    nested_calls="6 driver bodies in which one rewritten recurse / call_next call is an argument of (or sits next to) another, x 4 choices "
+                                 "of forwarded classes: every entered method must have received the objects its call site supplied",
                     calls="<= 10 call shapes per signature set: number of positionals x subset of keywords (+ uniformly named positionals "
                           "as keywords); a third of them make the method raise", signature_sets="random sample (seeded)"),
         rule="one state = one signature set x class of (hierarchy, priorities); non-trivial = at least one call ran a method",
